@@ -582,7 +582,7 @@ class AshProtocol(asyncio.Protocol):
     def _enter_failed_state(self, reset_code: t.NcpResetCode) -> None:
         self._ncp_state = NcpState.FAILED
         self._cancel_pending_data_frames(NcpFailure(code=reset_code))
-        self._ezsp_protocol.reset_received(reset_code)
+        self._ezsp_protocol.error_received(reset_code)
 
     def _write_frame(
         self,
